@@ -130,7 +130,12 @@ class Ctx:
         if "nontrivial_count" in result:
             self.extra["nontrivial_count"] = self.extra.get("nontrivial_count", 0) + result["nontrivial_count"]
         for k, v in result.get("info", {}).items():
-            self.extra.setdefault("info", {})[k] = v
+            cur = self.extra.setdefault("info", {}).get(k)
+            if isinstance(v, dict) and isinstance(cur, dict) and all(isinstance(x, (int, float)) for x in v.values()):
+                for kk, vv in v.items():
+                    cur[kk] = cur.get(kk, 0) + vv
+            else:
+                self.extra["info"][k] = v
 
     # ---- finishing -------------------------------------------------------------------------
     def finish(self):
